@@ -811,6 +811,148 @@ const D_LINE_LINES_B: usize = 18;
 const D_LINE_LINES_C: usize = 19;
 const D_LINE_EXIT: usize = 30;
 
+/// C02 for interrupted steps: a `next` / `finish` / `step` that ends early because a handled signal arrives inside the callee
+/// must leave no temporary breakpoint behind (text = ELF + the user's breakpoints), later continues must not stop at ghosts,
+/// and the program must end with its native output and status.  Own debuggee, no reference trace needed.
+const SIGSTEP_SRC: &str = r#"use std::hint::black_box;
+use std::sync::atomic::{AtomicU64, Ordering};
+static HITS: AtomicU64 = AtomicU64::new(0);
+extern "C" fn on_usr1(_s: i32) { HITS.fetch_add(1, Ordering::SeqCst); }
+extern "C" { fn signal(sig: i32, h: extern "C" fn(i32)) -> usize; fn raise(sig: i32) -> i32; }
+#[inline(never)]
+fn poke(x: u64) -> u64 {
+    unsafe { raise(10) };
+    black_box(x) + 1
+}
+#[inline(never)]
+fn work(mut a: u64) -> u64 {
+    a = a.wrapping_mul(3);
+    a = poke(a);
+    a = a.wrapping_add(7);
+    a = black_box(a) ^ 5;
+    a
+}
+fn main() {
+    unsafe { signal(10, on_usr1) };
+    let mut t = 1u64;
+    for _ in 0..3 { t = work(t); }
+    println!("t={} hits={}", t, HITS.load(Ordering::SeqCst));
+    std::process::exit((t % 5) as i32);
+}
+"#;
+const SIGSTEP_LINE_CALL: u64 = 14;
+const SIGSTEP_LINE_IN_POKE: u64 = 8;
+
+fn sigstep_child(log: &mut iso::Log, bin: &std::path::Path, kind: Kind) {
+    let mut s = match e2e::launch(bin, &[]) {
+        Ok(s) => s,
+        Err(e) => {
+            log.put(json!({"ev": "error", "what": format!("launch: {e}")}));
+            return;
+        }
+    };
+    let line = if kind == Kind::Finish { SIGSTEP_LINE_IN_POKE } else { SIGSTEP_LINE_CALL };
+    let users: Vec<u64> = match s.dbg.set_breakpoint_at_line("sigstep.rs", line) {
+        Ok(v) => v.iter().map(|x| view_addr(&x.addr)).collect(),
+        Err(e) => {
+            log.put(json!({"ev": "error", "what": format!("break: {e}")}));
+            return;
+        }
+    };
+    if let Err(e) = s.dbg.start_debugee_with_reason() {
+        log.put(json!({"ev": "error", "what": format!("start: {e}")}));
+        return;
+    }
+    let pid = s.pid_now();
+    let r = match kind {
+        Kind::Next => s.dbg.step_over(),
+        Kind::Step => s.dbg.step_into(),
+        Kind::Finish => s.dbg.step_out(),
+        Kind::Stepi => s.dbg.stepi(),
+    };
+    let evs = s.events.take();
+    let interrupted = evs.iter().any(|e| matches!(e, e2e::Ev::Signal(_)));
+    let patched = crate::leg_c01::patched_addresses(pid, bin).ok();
+    log.put(json!({"ev": "after_step", "kind": kind.name(), "res": format!("{:?}", r.map_err(|e| e.to_string())), "interrupted": interrupted, "patched": patched, "users": users}));
+    // the user's breakpoint goes away; from here on nothing may stop the program but its own signals
+    for v in s.dbg.breakpoints_snapshot().iter().map(|v| v.number).collect::<Vec<_>>() {
+        let _ = s.dbg.remove_breakpoint_by_number(v);
+    }
+    let patched2 = crate::leg_c01::patched_addresses(pid, bin).ok();
+    let mut ghost_stops = 0u64;
+    let mut signal_stops = 0u64;
+    let mut code: Option<i32> = None;
+    for _ in 0..60 {
+        match s.dbg.continue_debugee_with_reason() {
+            Ok(StopReason::DebugeeExit(c)) => {
+                code = Some(c);
+                break;
+            }
+            Ok(StopReason::SignalStop(_, _)) => signal_stops += 1,
+            Ok(_) => ghost_stops += 1,
+            Err(e) => {
+                log.put(json!({"ev": "error", "what": format!("continue: {e}")}));
+                break;
+            }
+        }
+    }
+    let out = String::from_utf8_lossy(&s.out.lock().unwrap()).to_string();
+    log.put(json!({"ev": "end", "patched_after_remove": patched2, "ghost_stops": ghost_stops, "signal_stops": signal_stops, "code": code, "stdout": out}));
+}
+
+/// runs the three interrupted-step histories; returns (checks done, findings)
+fn sigstep_checks(scratch: &str, hist: &mut BTreeMap<String, u64>, errors: &mut Vec<String>) -> Vec<(String, String)> {
+    let mut findings = vec![];
+    let bin = match e2e::compile(scratch, "sigstep", SIGSTEP_SRC, &[], None) {
+        Ok(b) => b,
+        Err(e) => {
+            errors.push(format!("sigstep: compile: {e}"));
+            return findings;
+        }
+    };
+    let (native_out, native_code) = reftrace::native_run(&bin, &[]);
+    let entry = std::fs::read(&bin).ok().and_then(|b| b.get(24..32).map(|x| u64::from_le_bytes(x.try_into().unwrap()))).unwrap_or(0) + BIAS;
+    for kind in [Kind::Next, Kind::Step, Kind::Finish] {
+        let bin2 = bin.clone();
+        let res = iso::run_isolated(scratch, &format!("sigstep-{}", kind.name()), 120_000, None, move |log| sigstep_child(log, &bin2, kind));
+        *hist.entry("interrupted-step-histories".into()).or_default() += 1;
+        let tag = format!("interrupted {}", kind.name());
+        if !matches!(res.end, End::Completed) {
+            findings.push(("interrupted-step-crash".into(), format!("{tag}: {:?} {}", res.end, res.stderr.chars().take(200).collect::<String>())));
+            continue;
+        }
+        for l in &res.lines {
+            match l["ev"].as_str().unwrap_or("") {
+                "error" => errors.push(format!("sigstep {}: {}", kind.name(), l["what"].as_str().unwrap_or("?"))),
+                "after_step" => {
+                    let users: Vec<u64> = l["users"].as_array().map(|a| a.iter().filter_map(|x| x.as_u64()).collect()).unwrap_or_default();
+                    let extra: Vec<u64> = l["patched"].as_array().map(|a| a.iter().filter_map(|x| x.as_u64()).filter(|a| !users.contains(a) && *a != entry).collect()).unwrap_or_default();
+                    *hist.entry(format!("interrupted-step:{}:signal-seen:{}", kind.name(), l["interrupted"])).or_default() += 1;
+                    if !extra.is_empty() {
+                        findings.push(("text-not-clean".into(), format!("{tag} by a handled signal: temporary breakpoints left at {:x?}", extra)));
+                    }
+                }
+                "end" => {
+                    let extra: Vec<u64> = l["patched_after_remove"].as_array().map(|a| a.iter().filter_map(|x| x.as_u64()).filter(|a| *a != entry).collect()).unwrap_or_default();
+                    if !extra.is_empty() {
+                        findings.push(("text-not-clean".into(), format!("{tag}: after removing every breakpoint the text still differs from the ELF file at {:x?}", extra)));
+                    }
+                    if l["ghost_stops"].as_u64().unwrap_or(0) > 0 {
+                        findings.push(("ghost-stops".into(), format!("{tag}: {} stops at no breakpoint of the user afterwards", l["ghost_stops"])));
+                    }
+                    let out = l["stdout"].as_str().unwrap_or("").as_bytes().to_vec();
+                    let code = l["code"].as_i64().map(|c| c as i32);
+                    if out != native_out || code != native_code {
+                        findings.push(("behaviour-changed".into(), format!("{tag}: output/status {:?}/{:?}, native {:?}/{:?}", String::from_utf8_lossy(&out), code, String::from_utf8_lossy(&native_out), native_code)));
+                    }
+                }
+                _ => {}
+            }
+        }
+    }
+    findings
+}
+
 pub fn run(args: &[String]) -> i32 {
     let seed: u64 = args.first().and_then(|s| s.parse().ok()).unwrap_or(1);
     let n_progs: usize = args.get(1).and_then(|s| s.parse().ok()).unwrap_or(3);
@@ -926,6 +1068,11 @@ pub fn run(args: &[String]) -> i32 {
             let _ = std::fs::remove_file(&p.bin);
         }
         Err(e) => errors.push(format!("prepare directed: {e}")),
+    }
+
+    // ---------------- steps interrupted by a handled signal: nothing may be left behind ----------------
+    for (key, note) in sigstep_checks(&scratch, &mut hist, &mut errors) {
+        failures.push(json!({"key": format!("c03-e2e:{key}"), "note": note, "history": "sigstep", "plan": "break at the call of poke() / inside poke(); next | step | finish; remove all breakpoints; continue to the exit"}));
     }
 
     // ---------------- random histories on generated programs ----------------
